@@ -1,7 +1,10 @@
-(* The one obligation of C09 that is about the current source: every public method of Cache is
-   lock-wrapped.  Closed by computation on Gen/CacheLocks.v; it stops compiling when a method loses
-   its "c.μ.Lock(); defer c.μ.Unlock()" prologue. *)
-From Mds Require Import Gen.CacheLocks Cache.ConcCache.
+(* The one obligation of C09 that is about the current source: the mutex is a sync.Mutex or a
+   sync.RWMutex and every method of Cache that touches the receiver is ONE critical section
+   (exclusive; shared only for Has, Len, Size).  Closed by computation on Gen/CacheLocks.v, which the
+   translator rebuilds from cache/cache.go on every run; it stops compiling when a method loses its
+   Lock, takes it late or gives it back early, calls another locking method of the cache before or
+   under it, or runs a state-changing method (Get, Put, Remove, Clear) under RLock. *)
+From Mds Require Import Gen.CacheLocks Cache.ConcShape Cache.ConcCache.
 
-Lemma all_locked_now : all_locked = true.
+Lemma all_atomic_now : all_atomic = true.
 Proof. reflexivity. Qed.
